@@ -78,10 +78,15 @@ def _no_repeats(g) -> bool:
         if hasattr(part, 'geoms'):
             if not _no_repeats(part):
                 return False
-        elif part.geom_type == 'LineString':
+        elif part.geom_type in ('LineString', 'LinearRing'):
             cs = list(part.coords)
             if any(a == b for a, b in zip(cs, cs[1:])):
                 return False
+        elif part.geom_type == 'Polygon' and not part.is_empty:
+            for ring in [part.exterior, *part.interiors]:
+                cs = list(ring.coords)
+                if any(a == b for a, b in zip(cs, cs[1:])):
+                    return False
     return True
 
 
